@@ -137,3 +137,52 @@ def validate_trace(module, cfg, name, trace_path, decls_path, env=None, timeout=
     bad = [(a, b, obj) for (a, b, obj) in json_rows(r, "BAD")]
     drift = [(a, b, obj) for (a, b, obj) in json_rows(r, "DRIFT")]
     return summ[-1][-1], bad, drift, r
+
+
+def validate_trace_chunks(module, cfg, name, events, table, nchunks=8, env=None, timeout=3600):
+    """Split the events into chunks (whole declarations stay together is not required: every
+    event is self-contained given the declaration table), validate them in parallel TLC
+    processes, and merge. Returns (summary, bad, drift, distinct_states) where bad/drift
+    items are (global event index (0-based), pair index (1-based), obj)."""
+    from concurrent.futures import ThreadPoolExecutor
+    n = max(1, min(nchunks, len(events)))
+    # keep events of one declaration in one chunk so that the inferred NaN policy sees them in order
+    order = {}
+    for gi, e in enumerate(events):
+        order.setdefault(e["d"], []).append(gi)
+    chunks = [[] for _ in range(n)]
+    sizes = [0] * n
+    for did, gis in sorted(order.items(), key=lambda kv: -sum(len(events[g]["ins"]) for g in kv[1])):
+        k = sizes.index(min(sizes))
+        chunks[k].extend(gis)
+        sizes[k] += sum(len(events[g]["ins"]) for g in gis)
+    chunks = [c for c in chunks if c]
+    tdir = ensure_dir(os.path.join(WORK, "trace", name))
+    dp = os.path.join(tdir, "decls.json")
+    with open(dp, "w") as f:
+        json.dump(table, f)
+
+    def one(ci):
+        tp = os.path.join(tdir, "trace_%d.ndjson" % ci)
+        with open(tp, "w") as f:
+            for gi in chunks[ci]:
+                f.write(json.dumps(events[gi]) + "\n")
+        return validate_trace(module, cfg, "%s_c%d" % (name, ci), tp, dp, env=env, timeout=timeout)
+
+    with ThreadPoolExecutor(max_workers=len(chunks)) as ex:
+        results = list(ex.map(one, range(len(chunks))))
+    summary = {"events": 0, "pairs": 0, "bad": 0, "drift": 0, "pol": {}}
+    bad, drift, states = [], [], 0
+    for ci, (summ, b, d, r) in enumerate(results):
+        for k in ("events", "pairs", "bad", "drift"):
+            summary[k] += summ[k]
+        for kind, v in summ["pol"].items():
+            prev = summary["pol"].get(kind, "?")
+            if prev == "?" or prev == v:
+                summary["pol"][kind] = v if v != "?" else prev
+            elif v != "?":
+                summary["pol"][kind] = "CONFLICT"
+        states += r.distinct
+        bad.extend((chunks[ci][l - 1], i, obj) for (l, i, obj) in b)
+        drift.extend((chunks[ci][l - 1], i, obj) for (l, i, obj) in d)
+    return summary, bad, drift, states
